@@ -21,8 +21,8 @@ MsgsAddr == { Base,
 MsgsAll ==
      { Base }
   \cup { Mk(pr, "own", "absent", "none", "R", "v1") : pr \in {"none", "push", "big"} }
-  \cup { Mk("few", la, "absent", "none", "R", "v1") : la \in {"none", "fsuf", "big"} }
-  \cup { Mk("few", "own", "validR", ra, "R", "v1") : ra \in {"none", "own", "fsuf", "big"} }
+  \cup { Mk("few", la, "absent", "none", "R", "v1") : la \in {"none", "fsuf", "big", "suf1", "self1", "sufU", "dups", "bigd"} }
+  \cup { Mk("few", "own", "validR", ra, "R", "v1") : ra \in {"none", "own", "fsuf", "big", "suf1", "sufU", "dups", "bigd"} }
   \cup { Mk("few", "own", rec, "own", "R", "v1") :
            rec \in {"byF", "forged", "pidF", "othertype", "domain", "type", "garbage", "badsig"} }
   \cup { Mk("few", "own", "absent", "none", k, "v1") : k \in {"absent", "F", "garbage"} }
@@ -48,7 +48,10 @@ MsgsMix == { Base,
              Mk("few", "own", "validR", "fsuf", "F", "v1"),
              Mk("few", "fsuf", "othertype", "own", "R", "v1"),
              Mk("few", "own", "domain", "own", "garbage", "v1"),
-             Mk("big", "own", "absent", "none", "R", "v1") }
+             Mk("big", "own", "absent", "none", "R", "v1"),
+             Mk("few", "dups", "absent", "none", "R", "v1"),
+             Mk("few", "own", "validR", "bigd", "R", "v1"),
+             Mk("few", "sufU", "pidF", "dups", "R", "v1") }
 
 \* one message: liveness
 MsgsOne == { Base }
